@@ -7,10 +7,10 @@
      c, st                      the harness clock and the projection [[uid, tok, exp], ..] of the real database
                                 after the call
    A "reset" record starts a new run (fresh provider).  Every record is replayed with the action of
-   Auth.tla for that call; the action's result and the successor state must be exactly what was
-   logged.  The first disagreement of a run is recorded (index, what the spec demanded) and the rest of
-   that run is skipped, since the two states have diverged.  All invariants of Auth and the action
-   property ResultsOK are evaluated along the accepted behaviour. *)
+   Auth.tla for that call; the action's RESULT must be the logged one (see ResAgree below: this gates);
+   differences in what the statement leaves open and in the stored state are collected as drift.  The
+   first disagreement of a run is recorded (index, what the spec demanded) and the rest of that run is
+   skipped.  All invariants of Auth and the action property ResultsOK are evaluated along the behaviour. *)
 EXTENDS Auth, Json, IOUtils, Sequences
 
 TUids   == 1..80
@@ -18,10 +18,10 @@ TTokens == 1..80
 
 Rec == ndJsonDeserialize(IOEnv.TRACE)
 
-VARIABLES l, bad, skip
-tvars == <<l, bad, skip>>
+VARIABLES l, bad, skip, soft
+tvars == <<l, bad, skip, soft>>
 
-TInit == Init /\ l = 1 /\ bad = << >> /\ skip = FALSE
+TInit == Init /\ l = 1 /\ bad = << >> /\ skip = FALSE /\ soft = << >>
 
 Do(e) ==
   \/ e.op = "create_user" /\ CreateUser(e.pw)
@@ -37,9 +37,31 @@ Do(e) ==
   \/ e.op = "tick" /\ Tick
 
 Range(s) == { s[i] : i \in 1..Len(s) }
-\* primed: evaluated after Do(e) has fixed the successor
-AgreeNext(e) ==
-  /\ last'.res = e.res /\ last'.ruid = e.ruid /\ last'.rtok = e.rtok
+
+(* FALSE-ALARM AUDIT - what a recorded call is judged on.
+   The statement of C17 speaks about results: whether a password verifies, whether a token authenticates and whom,
+   whether a session / refresh is granted or refused, that uids and tokens never repeat.  It does not fix WHICH
+   AuthError a refusal carries, which status a refused route request gets, what `exists` answers (not an operation of
+   the property) or what remove_user answers for a uid that is not there; and it says nothing about the stored fields.
+   So the harness logs `res` in the vocabulary ok / true / false / err / 200 / rej / panic (+ `detail`), and:
+     ResAgree  (gates)  the class of the result and the returned uid / token number are the ones the spec demands;
+     soft      (drift)  the error kind / status differs from the code model's, the free results differ, or the
+                        projection of the database differs from the code model's successor state.
+   After a soft difference the spec simply goes on from ITS successor: by Inv_Coherent / ResultsOK (checked by TLC)
+   every later result the code model predicts is the one the reference model demands, and the reference model depends
+   on the calls and their results only, not on how the implementation stores them. *)
+Norm(r) == CASE r \in {"UserNotFound", "InvalidToken", "SessionAlreadyExists"} -> "err"
+             [] r = "401" -> "rej"
+             [] OTHER -> r
+FreeResult(e) == e.op = "exists" \/ (e.op = "remove_user" /\ last'.res = "UserNotFound")
+ResAgree(e) ==
+  \/ FreeResult(e) /\ e.res # "panic"
+  \/ Norm(last'.res) = e.res /\ last'.ruid = e.ruid /\ last'.rtok = e.rtok
+DetailAgree(e) ==
+  /\ Norm(last'.res) = e.res
+  /\ e.res \in {"err", "rej"} => e.detail = last'.res
+  /\ e.note = ""
+ProjAgree(e) ==
   /\ clock' = e.c
   /\ Len(e.st) = Cardinality(DOMAIN users')
   /\ { <<u, users'[u].tok, users'[u].exp>> : u \in DOMAIN users' } = { <<r[1], r[2], r[3]>> : r \in Range(e.st) }
@@ -51,12 +73,16 @@ TNext ==
         IF e.op = "reset"
         THEN /\ users' = << >> /\ clock' = 0 /\ created' = {} /\ issued' = {}
              /\ refpw' = << >> /\ grant' = << >> /\ orphan' = << >> /\ last' = Blank
-             /\ skip' = FALSE /\ bad' = bad
+             /\ skip' = FALSE /\ UNCHANGED <<bad, soft>>
         ELSE IF skip
-        THEN UNCHANGED <<vars, bad, skip>>
+        THEN UNCHANGED <<vars, bad, skip, soft>>
         ELSE /\ Do(e)
-             /\ IF AgreeNext(e) THEN UNCHANGED <<bad, skip>>
-                ELSE /\ skip' = TRUE
+             /\ IF ResAgree(e)
+                THEN /\ UNCHANGED <<bad, skip>>
+                     /\ soft' = IF (DetailAgree(e) /\ ProjAgree(e)) \/ Len(soft) >= 12 THEN soft
+                                ELSE Append(soft, [index |-> l, logged |-> e, spec_result |-> last'.res,
+                                                   spec_state |-> { <<u, users'[u].tok, users'[u].exp>> : u \in DOMAIN users' }])
+                ELSE /\ skip' = TRUE /\ UNCHANGED soft
                      /\ bad' = IF Len(bad) >= 20 THEN bad
                                ELSE Append(bad, [index |-> l, logged |-> e, spec_result |-> last',
                                                  spec_clock |-> clock',
@@ -67,6 +93,7 @@ TSpec == TInit /\ [][TNext]_<<vars, tvars>>
 
 \* checked at the last state: the first disagreement of each rejected run is printed for the driver
 AllAgree == (l = Len(Rec) + 1) =>
-              \/ bad = << >>
-              \/ PrintT(ToJson([rejected |-> bad])) /\ FALSE
+              /\ soft = << >> \/ PrintT(ToJson([drift |-> soft]))      \* reported, never fails
+              /\ \/ bad = << >>
+                 \/ PrintT(ToJson([rejected |-> bad])) /\ FALSE
 =============================================================================
